@@ -7,27 +7,53 @@ from vlib import core
 
 TRUST = ("Lean 4.33 kernel; axioms at most propext/Classical.choice/Quot.sound (audited per run); ")
 MANIFEST = dict(
-  text=("Theorems (Props/C20.lean) over an abstract sequentially-consistent shared-memory machine, for all programs, "
-        "thread counts and interleavings: statically disjoint writes imply that every complete schedule yields the "
-        "single-threaded result and that no thread can observe another (drf_schedule_independent, drf_threads_isolated); "
-        "iteration-level disjointness implies this for every assignment of iterations to threads (split_drf); partial results "
-        "merged under one lock are order independent for commutative-associative merges (critical_reduction_order_independent), and at machine level a program whose ordinary accesses are race free and whose critical sections apply pairwise commuting updates to lock-protected locations ends, after every complete schedule, in the single-threaded result (crit_schedule_independent, crit_two_schedules_agree); "
-        "the thread-range arithmetic of ErrorFunction/NegativeLogLikelihood, regenerated from the C++ on every run, tiles the "
-        "batches (tile_Site*, ranges_cover_exactly_once). Every SHARK_PARALLEL_FOR region of the library is inventoried on every "
-        "run and its text hash compared with the reviewed access summary that maps it to one of these theorems; any new or "
-        "changed region breaks the tie. Runtime side: each listed routine is run with 1,2,3,4,8,16 threads on exact data and must "
-        "be bit-identical to the single-threaded run; concurrent shared dataset copies are checked; the same harness runs under ThreadSanitizer (clang+libomp+Archer)."),
-  note=TRUST + "PARTIAL: the access summaries are hand-written abstractions of the C++ regions (a write the summary misses is invisible "
-       "to the theorems; only the runtime side can reveal it); the C++ memory model, the OpenMP runtime and code called from "
-       "inside the regions (models, kernels, losses) are not modelled; RFTrainer and NegativeLogLikelihood are covered by the "
-       "inventory only (no exact-data sweep).",
-  technique="Lean 4 proof over all interleavings of an abstract machine + source-regenerated range arithmetic + reviewed region inventory + thread-count sweeps/TSan",
+  text=("Theorems (Props/C20.lean, 32) over an abstract sequentially-consistent shared-memory machine, for all programs, thread counts and "
+        "interleavings: statically disjoint writes imply that every complete schedule yields the single-threaded result and that no thread can "
+        "observe another (drf_schedule_independent, drf_threads_isolated); iteration-level disjointness implies this for every assignment of "
+        "iterations to threads (split_drf); critical sections with pairwise commuting updates end in the single-threaded result "
+        "(crit_schedule_independent), and critical sections that commute only up to an equivalence (collecting push_back) end in a result "
+        "equivalent to it (crit_schedule_independent_upto, collect_order_perm, rf_forest_schedule_independent: the forest is a permutation "
+        "of the single-threaded one with each tree paired with its own out-of-bag set, any commutative-monoid vote is equal); reductions over "
+        "any commutative monoid equal the single-threaded fold for EVERY work split and order of entry (reduction_any_split), in particular "
+        "for the leftover rule of ErrorFunction regenerated from the C++ (errorfunction_ranges_split, errorfunction_reduction, tile_Site*, "
+        "ranges_cover_exactly_once); per-thread bounded k-heaps merged give the global k smallest keys for every thread count, share and k "
+        "(knn_heaps_merge), and the executable model of getNeighbors run by the driver equals that specification (knn_model_spec, "
+        "ranges_model_cover); shared batches: reference counts as atomic fetch-add never drop below the owner's count at any point of any "
+        "schedule and are balanced at the end, contents never change (refcount_never_below_initial, refcount_balanced_at_end, "
+        "shared_contents_unchanged). GENERATED per run from the C++: for each in-scope SHARK_PARALLEL_FOR region an access summary (variables "
+        "written in the body, classified local / loop-variable indexed / thread-id indexed / critical / read-only / shared-unprotected by a "
+        "token-level extractor) with the obligation r<k>_race_free discharged by the generic theorem summary_race_free and composed with the machine (raceFree_programs_critOK, region_schedule_independent(_upto): "
+        "the region compiled with arbitrary values, iteration counts and iteration-to-thread assignments is schedule independent), plus the inventory "
+        "of mutable members/const_casts/static locals of pluggable components (mutable_members_reviewed); a new shared scratch variable, a "
+        "changed callee pinned by the allow-list, or a new mutable member breaks a generated theorem. Runtime side: real work split of "
+        "ErrorFunction::eval (recorded through a loss) and real neighbour search vs. the Lean driver (exact correspondence); every routine "
+        "the property names (error/gradient incl. weighted, stateful networks, losses over datasets, Gram rows/blocks/derivatives with 9 "
+        "kernel kinds, transform incl. stateful model, kNN k=1/mid/n, RF training classification+regression, hypervolume contributions "
+        "with/without reference and the approximator, NegativeLogLikelihood, concurrent shared copies/subsets) at 1,2,3,4,8,16 threads, plain "
+        "and with a schedule-perturbing loss, under the library's static schedule, under schedule(dynamic,1) and under ThreadSanitizer; the "
+        "evidence lists thread counts and schedules per routine."),
+  note=TRUST + "PARTIAL: (1) the functional theorems treat a critical section as ONE atomic update of one record-valued location; on the machine with "
+       "explicit acquire/release (sections are non-atomic instruction sequences, nested sections allowed) lockset soundness is proved for all "
+       "interleavings (lock_discipline_no_race) and the refinement to the atomic view is proved for the reduction pattern only "
+       "(lock_reduction_schedule_independent: acquire; tmp:=acc; acc:=tmp+x; release by any number of threads); for sections of other shapes "
+       "atomicity is the standard data-race-free assumption. Shark has one global lock; the extractor rejects nested critical/parallel regions. "
+       "(2) The extractor is token-level: calls, aliases, derived indices and shared objects handed to callees that it cannot decide are accepted "
+       "through the reviewed allow-list translate/par_allow.json (42 entries with reasons, pinned to the callee's text where they talk about a "
+       "callee); an allow entry is a reviewed claim, not a proof. (3) Code called from inside the regions (models, kernels, losses) is covered by "
+       "the inventory of mutable members/const_casts/static locals and at run time only; the C++ memory model and the OpenMP runtime are not "
+       "modelled. (4) k-NN: labels among equidistant neighbours depend on the thread count (keys do not: knn_heaps_merge is about keys); the "
+       "thread-indexed heaps assume the static schedule (the dynamic build runs them only with threads <= batches). (5) shared_copies_safe is "
+       "about an abstract copy-on-write model (fetch-add reference counts, immutable batches); boost::shared_ptr itself is exercised at run time "
+       "(concurrent copies/subsets/assignments/makeIndependent, also under ThreadSanitizer), not modelled. "
+       "Known findings: F-C20-1 (random-forest feature importances depend on the schedule), F-C20-2 (tie order of hypervolume contributions "
+       "without reference point), F-C20-3 (DropoutLayer races on the process-wide generator inside parallel regions).",
+  technique="Lean 4 proof over all interleavings of an abstract machine + source-regenerated range arithmetic and access summaries with generated obligations + exact correspondence of work split / neighbour search with a native Lean driver + thread-count and schedule sweeps/TSan",
   design="§6 C20")
 FINISH = dict(level="proof",
               rule="cases = (seed,n,d,batch size) data sets, each run through every listed parallel routine with 1,2,3,4,8,16 "
                    "threads x reps; distinct = distinct case parameters; non-trivial = more than one batch (so that work is actually split)")
 LAKE_TARGETS = ["SharkVerif.Props.C20"]
-SRC = ["src/Core/Random.cpp"]
+SRC = ["src/Core/Random.cpp", "src/Models/RBFLayer.cpp"]
 
 
 def translate(ctx):
@@ -35,12 +61,19 @@ def translate(ctx):
 
 
 def build(ctx):
-    exe = ctx.harness("c20", ["c20.cpp"], repo_sources=SRC, san=False)
-    if exe and not hasattr(ctx, "_no_tsan_prebuild"):
+    """three builds of the one harness source: `c20` (gcc, ASan+UBSan, the library's own static schedule), `c20_dyn`
+    (gcc, the same region bodies under schedule(dynamic,1)), `c20_tsan` (clang + libomp + Archer ThreadSanitizer)"""
+    from concurrent.futures import ThreadPoolExecutor
+    with ThreadPoolExecutor(max_workers=3) as ex:
+        f1 = ex.submit(ctx.harness, "c20", ["c20.cpp"], (), True, None, SRC)
+        f2 = ex.submit(ctx.harness, "c20_dyn", ["c20.cpp"], ("-DC20_DYNAMIC",), False, None, SRC)
+        f3 = ex.submit(build_tsan, ctx) if not hasattr(ctx, "_no_tsan_prebuild") else None
+        exe, dyn = f1.result(), f2.result()
         try:
-            build_tsan(ctx)
+            tsan = f3.result() if f3 else None
         except Exception as e:
-            ctx.log(f"tsan prebuild failed: {e}")
+            ctx.log(f"tsan build failed: {e}"); tsan = None
+    ctx._c20 = (exe, dyn, tsan)
     return exe
 
 
@@ -48,7 +81,7 @@ def build_tsan(ctx):
     """clang-14 + libomp + Archer ThreadSanitizer build (not cached by dependency hash: rebuilt when sources are newer)"""
     inc = ctx.shark_h()
     exe = os.path.join(core.CACHE, "bin", "c20_tsan")
-    src = [os.path.join(core.VERIF, "harness", "c20.cpp"), os.path.join(core.REPO, "src/Core/Random.cpp")]
+    src = [os.path.join(core.VERIF, "harness", "c20.cpp")] + [os.path.join(core.REPO, x) for x in SRC]
     key = core.sha("".join(core.file_sha(s) for s in src) + subprocess.run(
         ["git", "-C", core.REPO, "status", "--porcelain", "--untracked-files=no"], capture_output=True, text=True).stdout +
         subprocess.run(["git", "-C", core.REPO, "rev-parse", "HEAD"], capture_output=True, text=True).stdout +
@@ -68,101 +101,203 @@ def build_tsan(ctx):
     return exe
 
 
-def gen_cases(ctx, ncases, reps):
-    r = ctx.rng.fork("c20")
+def gen_cases(ctx, ncases, reps, tag="sweep"):
+    """(seed,n,d,batch size) data sets; the first three are boundary classes: one batch (nothing to split), one element
+    per batch and fewer batches than threads, more batches than 16 threads, 1..4 elements"""
+    r = ctx.rng.fork("c20" + tag)
     cases = []
-    for _ in range(ncases):
+    for i in range(ncases):
         n = r.range(5, 60); d = r.range(1, 4); bs = r.range(1, max(1, n // 2))
+        if i == 0: bs = n + r.below(3)
+        elif i == 1: n = r.range(5, 9); bs = 1
+        elif i == 2: n = r.range(40, 60); bs = r.range(1, 2)
+        elif i == 3: n = r.range(1, 4); bs = r.range(1, 2)          # size 1 .. 4: k = n, single-element batches, one-point forests
         cases.append(f"case {r.below(1 << 30)} {n} {d} {bs} {reps}")
+        nb = -(-n // bs)
+        ctx.hist("gen_batches_" + tag, "1" if nb == 1 else "2-3" if nb <= 3 else "4-15" if nb < 16 else "16+")
+        ctx.hist("gen_n_" + tag, "1-4" if n < 5 else "5-9" if n < 10 else "10-29" if n < 30 else "30-60")
+        ctx.hist("gen_dim_" + tag, d)
+    return cases
+
+
+def gen_model_cases(ctx, n):
+    """op lines for the correspondence with drv_c20: work split of ErrorFunction::eval (ranges per thread), of the weighted
+    error function (every batch exactly once, any assignment), neighbour search"""
+    r = ctx.rng.fork("c20model")
+    cases = []
+    for i in range(n):
+        B = r.choice([1, 1, 2, 3, 5, 7, 8, 15, 16, 17, 31, 33]) if r.chance(1, 2) else r.range(1, 40)
+        T = r.choice([1, 2, 3, 4, 8, 16])
+        ctx.hist("split_B_vs_T", "B<T" if B < T else "B=T" if B == T else "B%T=0" if B % T == 0 else "B%T>0")
+        ops = [f"split {B} {T}", f"splitw {B} {T}"]
+        bs = r.range(1, 4); nb = r.range(1, 12); k = r.range(1, bs * nb)
+        if r.chance(1, 5): k = bs * nb
+        if r.chance(1, 5): k = 1
+        span = r.choice([1, 3, 10])     # small span: many ties / duplicates / zeros
+        xs = [r.range(-span, span) for _ in range(bs * nb)]
+        Tk = r.choice([1, 2, 3, 4, 8, 16])
+        ctx.hist("knn_shape", ("k=n " if k == bs * nb else "k=1 " if k == 1 else "k mid ") + ("batches<T" if nb < Tk else "batches>=T"))
+        ctx.hist("knn_ties", "ties" if len(set(abs(x) for x in xs)) < len(xs) else "distinct")
+        ops.append(f"knn {Tk} {k} {bs} | " + " ".join(map(str, xs)))
+        cases.append(ops)
     return cases
 
 
 def run_sweep(ctx, exe, cases, tag, env=None, timeout=1500):
     e = dict(os.environ); e.update(env or {})
+    e.setdefault("ASAN_OPTIONS", "detect_leaks=0:abort_on_error=0")
+    e.setdefault("UBSAN_OPTIONS", "print_stacktrace=1")
+    e.setdefault("OMP_WAIT_POLICY", "passive"); e.setdefault("GOMP_SPINCOUNT", "0")     # shared machine: no busy waiting at barriers
     p = subprocess.run([exe], input="\n".join(cases) + "\n", capture_output=True, text=True, errors="replace", env=e, timeout=timeout)
     lines = p.stdout.splitlines()
     cur = None; ci = -1
     fails = []
+    table = ctx.cov.setdefault("routines", {})
     for l in lines:
         if l.startswith("case "):
             ci += 1; cur = cases[ci] if ci < len(cases) else "?"
             if "batches=1" not in l: ctx.count("nontrivial_cases_" + tag)
             continue
-        m = re.match(r"routine=(\S+) runs=(\d+)", l)
+        m = re.match(r"routine=(\S+) runs=(\d+)(?: threads=(\S+) sched=(\S+) perturbed=(\d+) oracle=(\S+))?", l)
         if m:
             ctx.hist("routine_runs_" + tag, m.group(1), int(m.group(2)))
             ctx.count("evaluations", int(m.group(2)))
+            row = table.setdefault(m.group(1), {"runs": 0, "threads": [], "schedules": [], "perturbed_runs": 0, "oracle": "", "under_tsan": False})
+            row["runs"] += int(m.group(2))
+            if m.group(3):
+                for t in m.group(3).split(","):
+                    if t and int(t) not in row["threads"]: row["threads"].append(int(t))
+                row["threads"].sort()
+                sch = m.group(4) + ("+tsan(libomp)" if tag == "tsan" else "")
+                if sch not in row["schedules"]: row["schedules"].append(sch)
+                row["perturbed_runs"] += int(m.group(5)); row["oracle"] = m.group(6)
+            if tag == "tsan": row["under_tsan"] = True
         if "!oracle" in l:
-            fails.append((cur, l))
+            fails.append((cur if cur is not None else l, l))
     return p.returncode, lines, p.stderr, fails
 
 
-def run(ctx):
-    ctx.trusted += ["translator translate/par_regions.py (range arithmetic via translate/cexpr.py; region inventory by text hash)",
-                    "reviewed table translate/par_summaries.json (hand-written access summaries: modelled, not verified)",
-                    "runtime harness harness/c20.cpp; clang-14 ThreadSanitizer + libomp + Archer"]
-    ctx.assumptions += ["sequentially consistent interleaving semantics; a critical section is one atomic step",
-                        "exact data (small integers): any schedule dependence of a sum shows as a bit difference",
-                        "default OpenMP schedule (static) for the thread-indexed kNN heaps"]
-    ok_t = translate(ctx)
-    if not ok_t:
-        # the translator's last lines name the unreviewed regions
-        pass
-    ctx.prove(["SharkVerif.Props.C20", "SharkVerif.Gen.ParRegions"])
-    if not ctx.quick:
-        ctx.leanchecker(["SharkVerif.Props.C20"])
-    exe = build(ctx)
-    if not exe:
-        return
-    try:
-        inv = json.load(open(os.path.join(core.CACHE, "par_inventory.json")))["regions"]
-        ctx.cov["parallel_regions"] = len(inv)
-        table = {r["id"]: r for r in json.load(open(os.path.join(core.VERIF, "translate/par_summaries.json")))["regions"]}
-        for r in inv:
-            ctx.hist("region_classes", table.get(r["id"], {}).get("class", "UNREVIEWED"))
-    except OSError:
-        pass
-    broken_tie = any(b["kind"] in ("translator", "theorem", "build") for b in ctx.breaks)
-    ncases, reps = (6, 2) if ctx.quick else (40, 5)
-    if broken_tie:
-        ncases, reps = ncases * 3, reps * 3      # search harder for a failing schedule
-    cases = gen_cases(ctx, ncases, reps)
-    ctx.cov["evaluations"] = 0
-    ctx.cov["distinct_nontrivial"] = len(set(cases))
-    ctx.sample({"case": cases[0], "meaning": "case <seed> <n> <d> <batchsize> <reps>"})
-    rc, lines, err, fails = run_sweep(ctx, exe, cases, "sweep")
-    ctx.sample({"harness_output": lines[:6]})
-    found = False
-    if rc != 0:
-        found = True
-        ctx.violation("crash:c20-sweep", {"cases": cases, "stderr": err[-2000:], "stdout_tail": lines[-5:]}, True,
-                      "parallel-routine sweep crashed")
-    seen = set()
+def report_fails(ctx, exe, fails, tag):
+    seen = set(); found = False
     for case, l in fails:
         m = re.search(r"!oracle (\S+) routine=(\S+) threads=(\d+)", l)
         key = f"oracle:{m.group(1)}:{m.group(2)}" if m else "oracle:unknown"
         if key in seen: continue
         seen.add(key); found = True
-        ctx.violation(key, {"harness_cmd": [exe], "ops": [case], "line": l}, True,
-                      f"result depends on thread count/schedule: {l}")
-    # ThreadSanitizer (clang + libomp + Archer): every run, more cases in the thorough tier / after a broken tie
-    if True:
-        tsan = build_tsan(ctx)
-        if tsan:
-            tc = gen_cases(ctx, 2 if (ctx.quick and not broken_tie) else 6, 1)
-            env = {"TSAN_OPTIONS": "ignore_noninstrumented_modules=1 halt_on_error=0 exitcode=0", "OMP_NUM_THREADS": "4"}
-            rc2, lines2, err2, fails2 = run_sweep(ctx, tsan, tc, "tsan", env=env, timeout=3000)
-            races = re.findall(r"WARNING: ThreadSanitizer: data race.*?(?=\n=+\n|\Z)", err2, flags=re.S)
-            ctx.cov["tsan_reports"] = len(races)
-            ctx.cov["tsan_cases"] = len(tc)
-            sites = set()
-            for rep in races:
-                fr = re.findall(r"#\d+ (\S+) (/\S+?):(\d+)", rep)
-                site = next((f"{os.path.relpath(p, core.REPO)}:{ln}" for fn, p, ln in fr if p.startswith(core.REPO)), None)
-                if site and site not in sites:
-                    sites.add(site); found = True
-                    ctx.violation(f"tsan:{site}", {"harness_cmd": [tsan], "ops": tc, "env": env, "report": rep[:3000]}, True,
-                                  f"ThreadSanitizer data race at {site}")
+        ctx.violation(key, {"harness_cmd": [exe], "ops": [case], "line": l, "build": tag}, True,
+                      f"result depends on thread count/schedule ({tag} build): {l}")
+    return found
+
+
+def classify(ops, r):
+    if r.oracle:
+        m = re.search(r"!oracle (\S+)", r.oracle[0])
+        return f"oracle:{m.group(1) if m else 'unknown'}:{ops[-1].split()[0]}", r.oracle[0]
+    if r.crash:
+        return f"crash:{ops[-1].split()[0]}", "harness crashed: " + r.stderr[-300:]
+    return f"model-mismatch:{ops[-1].split()[0]}", "real routine and Lean model of its control flow disagree"
+
+
+def run(ctx):
+    ctx.trusted += ["translator translate/par_regions.py (range arithmetic via translate/cexpr.py; region inventory by text hash; "
+                    "token-level extraction of the written variables of every region body)",
+                    "reviewed allow-list translate/par_allow.json (what the extractor cannot decide: calls, aliases, derived indices)",
+                    "runtime harness harness/c20.cpp; clang-14 ThreadSanitizer + libomp + Archer"]
+    ctx.assumptions += ["sequentially consistent interleaving semantics; a critical section is one atomic step on one record-valued location",
+                        "exact data (small integers): any schedule dependence of a sum shows as a bit difference",
+                        "static OpenMP schedule for the thread-indexed kNN heaps (the dynamic build runs them only with threads <= batches)",
+                        "the dynamic build replaces the pragma of SHARK_PARALLEL_FOR by schedule(dynamic,1); region bodies are the library's"]
+    translate(ctx)
+    ctx.prove(["SharkVerif.Props.C20", "SharkVerif.Gen.ParRegions", "SharkVerif.Gen.ParSummaries"])
+    if not ctx.quick:
+        ctx.leanchecker(["SharkVerif.Props.C20"])
+    exe = build(ctx)
+    if not exe:
+        return
+    _, dyn, tsan = ctx._c20
+    drv = ctx.driver("drv_c20")
+    try:
+        inv = json.load(open(os.path.join(core.CACHE, "par_inventory.json")))
+        ctx.cov["parallel_regions"] = len(inv["regions"])
+        for r in inv["regions"]:
+            ctx.hist("region_classes", r.get("class", "UNREVIEWED"))
+            for v in r.get("summary", {}).get("vars", []):
+                ctx.hist("extracted_write_classes", v["class"])
+        ctx.cov["allow_entries_used"] = inv.get("allow_used", 0)
+        ctx.cov["mutable_members_inventoried"] = inv.get("mutable_members", 0)
+        ctx.sample({"extracted_summary_example": inv["regions"][0]["id"], "vars": inv["regions"][0].get("summary", {}).get("vars", [])[:6]})
+    except (OSError, KeyError, IndexError):
+        pass
+    broken_tie = any(b["kind"] in ("translator", "theorem", "build") for b in ctx.breaks)
+    found = False
+    # ---- correspondence: real work split / real neighbour search vs. the Lean model of their control flow
+    if drv:
+        mc = gen_model_cases(ctx, 150 if ctx.quick else 2000)
+        cdir0 = os.path.join(core.VERIF, "corpus", "C20")
+        edge = [l.strip() for fn in sorted(os.listdir(cdir0)) for l in open(os.path.join(cdir0, fn)).read().splitlines()
+                if l.split() and l.split()[0] in ("split", "splitw", "knn")] if os.path.isdir(cdir0) else []
+        if edge: mc = [[l] for l in edge] + mc
+        ctx.sample({"model_case": mc[0]})
+        e = {"ASAN_OPTIONS": "detect_leaks=0:abort_on_error=0", "OMP_NUM_THREADS": "4", "OMP_WAIT_POLICY": "passive", "GOMP_SPINCOUNT": "0"}
+        if core.correspond(ctx, "c20-model", mc, [exe], [drv], classify, env=e, keep_prefix=0):
+            found = True
+        if dyn:
+            # the same under schedule(dynamic,1): per-batch split and neighbour search (thread-indexed heaps: threads <= batches only)
+            def dyn_ok(op):
+                t = op.split()
+                if t[0] == "splitw": return True
+                if t[0] == "knn":
+                    n = len(t) - 5; bs = int(t[3]); return int(t[1]) <= n // bs
+                return False
+            md = [[op for op in c if dyn_ok(op)] for c in mc]
+            md = [c for c in md if c]
+            if core.correspond(ctx, "c20-model-dynamic", md, [dyn], [drv], classify, env=e, keep_prefix=0):
+                found = True
+    ncases, reps = (20, 2) if ctx.quick else (100, 3)
+    if broken_tie:
+        ncases, reps = max(ncases, 30), max(reps, 3)      # search harder for a failing schedule (quick tier: more cases and repetitions)
+    # corpus first: minimised past failures (case lines go through the sweep, `dropout` lines to ThreadSanitizer)
+    corpus_cases, corpus_tsan = [], []
+    cdir = os.path.join(core.VERIF, "corpus", "C20")
+    for fn in sorted(os.listdir(cdir)) if os.path.isdir(cdir) else []:
+        for l in open(os.path.join(cdir, fn)).read().splitlines():
+            l = l.strip()
+            if l.startswith("case ") and l not in corpus_cases: corpus_cases.append(l)
+            elif l.startswith("dropout ") and l not in corpus_tsan: corpus_tsan.append(l)
+    ctx.cov["corpus_cases"] = len(corpus_cases) + len(corpus_tsan)
+    cases = corpus_cases + gen_cases(ctx, ncases, reps)
+    ctx.cov["evaluations"] = 0
+    ctx.cov["distinct_nontrivial"] = len(set(cases))
+    ctx.sample({"case": cases[0], "meaning": "case <seed> <n> <d> <batchsize> <reps>"})
+    for tag, binary, cs in (("sweep", exe, cases), ("dynamic", dyn, gen_cases(ctx, max(3, ncases // 2), reps, "dynamic"))):
+        if not binary: continue
+        rc, lines, err, fails = run_sweep(ctx, binary, cs, tag)
+        if tag == "sweep": ctx.sample({"harness_output": lines[:4]})
+        if rc != 0:
+            found = True
+            ctx.violation(f"crash:c20-{tag}", {"harness_cmd": [binary], "ops": cs, "stderr": err[-2000:], "stdout_tail": lines[-5:]}, True,
+                          f"parallel-routine sweep ({tag} build) crashed")
+        if report_fails(ctx, binary, fails, tag): found = True
+    # ---- ThreadSanitizer (clang + libomp + Archer): every run, more cases in the thorough tier / after a broken tie
+    if tsan:
+        tc = gen_cases(ctx, 5 if (ctx.quick and not broken_tie) else 16, 1, "tsan") + (corpus_tsan or ["dropout 4"])
+        env = {"TSAN_OPTIONS": "ignore_noninstrumented_modules=1 halt_on_error=0 exitcode=0", "OMP_NUM_THREADS": "4"}
+        rc2, lines2, err2, fails2 = run_sweep(ctx, tsan, tc, "tsan", env=env, timeout=3000)
+        races = re.findall(r"WARNING: ThreadSanitizer: data race.*?(?=\n=+\n|\Z)", err2, flags=re.S)
+        ctx.cov["tsan_reports"] = len(races)
+        ctx.cov["tsan_cases"] = len(tc)
+        sites = set()
+        for rep in races:
+            fr = re.findall(r"#\d+ .*? (/[^\s:]+):(\d+)(?::\d+)? \(", rep)
+            # innermost frame inside the repo tree (the generic helpers of Core/Random.h are skipped: they name no component)
+            inrepo = [(p, ln) for p, ln in fr if p.startswith(core.REPO + "/")]
+            pref = [(p, ln) for p, ln in inrepo if not p.endswith("Core/Random.h") and "/LinAlg/BLAS/" not in p]
+            site = next((f"{os.path.relpath(p, core.REPO)}:{ln}" for p, ln in (pref or inrepo)), None)
+            if site and site not in sites:
+                sites.add(site); found = True
+                ctx.violation(f"tsan:{site}", {"harness_cmd": [tsan], "ops": tc, "env": env, "report": rep[:3000]}, True,
+                              f"ThreadSanitizer data race at {site}")
+    ctx.log("routines exercised: " + "; ".join(f"{k} T={v['threads']} {'/'.join(v['schedules'])}" for k, v in sorted(ctx.cov.get("routines", {}).items()))[:6000])
     # breaks of the static tie for which no failing schedule was found are reported by finish()
     if found:
         for b in ctx.breaks:
@@ -171,6 +306,7 @@ def run(ctx):
 
 def replay(ctx, rep):
     exe = build(ctx)
-    rc, lines, err, fails = run_sweep(ctx, exe, rep["ops"], "replay")
+    if rep.get("harness_cmd") and os.path.exists(rep["harness_cmd"][0]): exe = rep["harness_cmd"][0]
+    rc, lines, err, fails = run_sweep(ctx, exe, rep["ops"], "replay", env=rep.get("env"))
     print("\n".join(lines)); print(err[-1500:])
     return 1 if (fails or rc != 0) else 0
